@@ -1,16 +1,29 @@
 #!/bin/sh
 # usage: check.sh <property id> <quick|thorough>
 # Rebuilds the harness against /repo's current working tree (build tag verif) and runs one check.
+# VERIF_REPO=<dir> (testing the machinery only) builds against another checkout of storj/drpc instead.
 set -u
 ID=$1; TIER=${2:-quick}
 cd /verif/harness || exit 2
 export GOFLAGS=-mod=mod GOPROXY=off GOSUMDB=off GOTOOLCHAIN=local GOMAXPROCS=${GOMAXPROCS:-16}
 mkdir -p /verif/bin /verif/out /verif/evidence
 BIN=/verif/bin/verif-$ID
-if ! go1.26 build -tags verif -o "$BIN" ./cmd/verif 2>/verif/out/build-$ID.log; then
+MODFLAG=
+if [ -n "${VERIF_REPO:-}" ] && [ "$VERIF_REPO" != /repo ]; then
+  T=$(mktemp -d /tmp/verif-mod-XXXXXX)
+  sed "s#=> /repo#=> $VERIF_REPO#" go.mod > "$T/go.mod"; cp go.sum "$T/go.sum"
+  MODFLAG="-modfile=$T/go.mod"
+  BIN=$T/verif-$ID
+  export VERIF_REPO
+  trap 'rm -rf "$T"' EXIT
+fi
+if ! go1.26 build $MODFLAG -tags verif -o "$BIN" ./cmd/verif 2>/verif/out/build-$ID.log; then
   # the tree under /repo does not build with the hooks on: nothing can be decided
   cat /verif/out/build-$ID.log >&2
-  echo "INCONCLUSIVE property=$ID harness does not build against /repo" >&2
+  echo "INCONCLUSIVE property=$ID harness does not build against the repository" >&2
   exit 2
+fi
+if [ -n "$MODFLAG" ]; then
+  "$BIN" check "$ID" --tier "$TIER"; exit $?
 fi
 exec "$BIN" check "$ID" --tier "$TIER"
